@@ -192,6 +192,15 @@ CHECKS['C02'] = dict(
          '(harmless while the WHERE clause is re-applied by the executor).',
     design='§4 C02')
 
+CHECKS['C04'] = dict(
+    technique='typed deny/allow inventory of rayon operations (T12); fork analysis of sequential/parallel sort arms with closure MIR fingerprints (sibling agreement); truthiness-table agreement of parallel filters with their sequential siblings (T8)',
+    text='Decides, for the default build (feature parallel on), that no scheduling-dependent rayon operation is used (unstable parallel sorts, '
+         'par_bridge, for_each*, find_any, reductions), that every parallel sort is paired with the stable sequential sort on the other arm of '
+         'the threshold test over the same collection with an identical comparator, and that parallel predicate filters classify predicate '
+         'values like their sequential siblings. Necessary conditions of threshold independence for all data and thread schedules.',
+    note='Not decided: correctness of chunk merging in the parallel hash-join build, float associativity in SIMD kernels, the cfg(not(parallel)) arms.',
+    design='§4 C04')
+
 NOT_APPLICABLE = {
     'C01': 'Equality of result multisets with a reference engine is a value-level semantic equivalence over all queries and data; no structural necessary condition beyond those claimed under C06/C21/C24 exists and a static rule cannot stand in for an oracle.',
     'C03': 'Columnar-vs-row agreement is determined by computed values (empty input, NULL handling, sums); a rejected shape falls back safely, so no table-agreement obligation exists whose breach necessarily changes results.',
